@@ -49,6 +49,32 @@ pub fn gen(tier: &str, seed: u64) -> Gen {
         cases.push(mk(&s));
     }
     fams.push(("random scripts over word forms (substitutions, expansion, quoting, comments, faults)".to_string(), nrand, false));
+    // scripts generated from concrete syntax trees: the oracle computes the expected commands,
+    // arguments, variables and result from the tree alone (Spec/SpecGrammar.v)
+    let ncst = if thorough { 120_000 } else { 4000 };
+    let mut nfault = 0;
+    for i in 0..ncst {
+        let mut g = super::c02cst::G::new(&mut rng);
+        let n = 1 + g.rng.below(5);
+        let (mut items, mut text) = g.items(n, 2, false);
+        let fault = if i % 5 == 4 { 1 + g.rng.below(super::c02cst::FAULTS.len()) } else { 0 };
+        if fault > 0 {
+            nfault += 1;
+            if !(text.ends_with(';') || text.ends_with('\n')) {
+                // give the last item a terminator, so that the injected text starts a command
+                let last = items.pop().unwrap();
+                let mut parts: Vec<Term> = last.as_list().to_vec();
+                let k = parts.len() - 1;
+                parts[k] = ts("\n");
+                items.push(tl(parts));
+                text.push('\n');
+            }
+            let (ft, at_start) = super::c02cst::FAULTS[fault - 1];
+            text = if at_start { format!("{}{}", ft, text) } else { format!("{}{}", text, ft) };
+        }
+        cases.push(tl(vec![ti(0), tstrs(&[super::c02cst::PRELUDE, text.as_str()]), tstrs(&super::c02cst::PROBES), tl(items), ti(fault as i64)]));
+    }
+    fams.push((format!("scripts rendered from random concrete syntax trees (every word form, substitutions nested to depth 2, separators, comments, empty commands, expansion; {} with one of 9 injected syntax faults)", nfault), ncst, false));
     (cases, fams)
 }
 
